@@ -481,8 +481,10 @@ class Gen:
         inst = None
         ins, outs = f["ins"], f["outs"]
         if params:
-            tys_ = [self.gen_type(region.tyvars, 1, copy_only=(p[1] == "@C")) for p in params]
-            targs = [["@ty", t] for t in tys_]
+            tys_ = [self.gen_type(region.tyvars, 1, copy_only=(p[1] == "@C")) for p in params if p[0] == "@ptype"]
+            targs = [["@ty", t] for t in tys_] + [
+                ["@str", rng.choice(["s", "é"])] if p == "@pstr" else ["@nat", rng.choice([0, 3, 7])]
+                for p in params if p[0] != "@ptype"]
             ins = [subst(t, tys_) for t in ins]
             outs = [subst(t, tys_) for t in outs]
             inst = FN(ins, outs)
@@ -842,6 +844,11 @@ class Gen:
             r = rng.random()
             params = [["@ptype", rng.choice(["@C", "@A"])] for _ in range(rng.choice([0, 0, 0, 1, 2]))]
             tv = [["@var", j, p[1]] for j, p in enumerate(params)]
+            if rng.random() < 0.2:
+                # parameters that are not types (after the type parameters, so that the variable indices stand):
+                # a natural number with or without an upper bound, a string
+                params = params + [rng.choice([["@pnat", "@none"], ["@pnat", "@none"], ["@pnat", 7], "@pstr"])
+                                   for _ in range(rng.randint(1, 2))]
             ins = self.gen_row(tv, 0, 2)
             if r < 0.2:
                 outs = self.gen_row(tv, 0, 2)
